@@ -54,6 +54,19 @@ FullSyncMove<SlotType, BUFFER_SIZE> {
         // if !BUFFER_SIZE.is_power_of_two() {
         //     panic!("FullSyncMeta: BUFFER_SIZE must be a power of 2, but {BUFFER_SIZE} was provided.");
         // }
+        #[cfg(feature = "verif")]
+        {
+            // verification hook: sequence counters may start anywhere (see `crate::verif::sequence_origin()`)
+            let origin = crate::verif::sequence_origin();
+            if origin != 0 {
+                return Self {
+                    head:              UnsafeCell::new(origin),
+                    tail:              UnsafeCell::new(origin),
+                    concurrency_guard: AtomicBool::new(false),
+                    buffer:            UnsafeCell::new(Box::pin([0; BUFFER_SIZE].map(|_| ManuallyDrop::new(slot_initializer())))),
+                }
+            }
+        }
         Self {
             head:              UnsafeCell::new(0),
             tail:              UnsafeCell::new(0),
@@ -72,6 +85,7 @@ FullSyncMove<SlotType, BUFFER_SIZE> {
     fn publish_movable(&self, item: SlotType) -> (Option<NonZeroU32>, Option<SlotType>) {
         match self.leak_slot_internal(|| false) {
             Some( (slot, _slot_id, len_before) ) => {
+                #[cfg(feature = "verif")] crate::verif::yield_point();
                 unsafe { ptr::write(slot, item); }
                 self.publish_leaked_internal();
                 (NonZeroU32::new(len_before+1), None)
@@ -135,6 +149,7 @@ FullSyncMove<SlotType, BUFFER_SIZE> {
     fn consume_movable(&self) -> Option<SlotType> {
         match self.consume_leaking_internal(|| false) {
             Some( (slot_ref, _len_before) ) => {
+                #[cfg(feature = "verif")] crate::verif::yield_point();
                 let item = unsafe { Some(ptr::read(slot_ref)) };
                 self.release_leaked_internal();
                 ogre_sync::unlock(&self.concurrency_guard);
@@ -176,6 +191,12 @@ impl<'a, SlotType:          'a + Debug + Default,
          const BUFFER_SIZE: usize>
 FullSyncMove<SlotType, BUFFER_SIZE> {
 
+    /// verification hook: moves the sequence counters of an (empty, quiescent) queue to `origin`
+    #[cfg(feature = "verif")]
+    pub fn verif_set_origin(&self, origin: u32) {
+        unsafe { *self.head.get() = origin; *self.tail.get() = origin; }
+    }
+
     /// The ring buffer is required to be a power of 2, so `head` and `tail` may wrap over flawlessly
     const BUFFER_SIZE_MUST_BE_A_POWER_OF_2: bool = usize::MAX / if BUFFER_SIZE.is_power_of_two() {1} else {0} > 0;
 
@@ -191,6 +212,7 @@ FullSyncMove<SlotType, BUFFER_SIZE> {
         let mutable_buffer = unsafe { &mut * (self.buffer.get() as *mut Box<[SlotType; BUFFER_SIZE]>) };
         let mut len_before;
         loop {
+            #[cfg(feature = "verif")] crate::verif::yield_point();
             ogre_sync::lock(&self.concurrency_guard);
             let tail = *unsafe { &* self.tail.get() };
             let head = *unsafe { &* self.head.get() };
@@ -213,6 +235,7 @@ FullSyncMove<SlotType, BUFFER_SIZE> {
     #[inline(always)]
     pub fn publish_leaked_internal(&self) {
         let tail = unsafe { &mut * self.tail.get() };
+        #[cfg(feature = "verif")] crate::verif::yield_point();
         *tail = tail.overflowing_add(1).0;
         ogre_sync::unlock(&self.concurrency_guard);
     }
@@ -222,6 +245,7 @@ FullSyncMove<SlotType, BUFFER_SIZE> {
     #[inline(always)]
     pub fn unleak_internal(&self) {
         let tail = unsafe { &mut * self.tail.get() };
+        #[cfg(feature = "verif")] crate::verif::yield_point();
         *tail = tail.overflowing_sub(1).0;
         ogre_sync::unlock(&self.concurrency_guard);
     }
@@ -237,6 +261,7 @@ FullSyncMove<SlotType, BUFFER_SIZE> {
         let mutable_buffer = unsafe { &mut * (self.buffer.get() as *mut Box<[SlotType; BUFFER_SIZE]>) };
         let mut len_before;
         loop {
+            #[cfg(feature = "verif")] crate::verif::yield_point();
             ogre_sync::lock(&self.concurrency_guard);
             let head = *unsafe { &mut * self.head.get() };
             len_before = self.available_elements_count() as i32;
@@ -257,6 +282,7 @@ FullSyncMove<SlotType, BUFFER_SIZE> {
     #[inline(always)]
     fn release_leaked_internal(&self) {
         let head = unsafe { &mut * self.head.get() };
+        #[cfg(feature = "verif")] crate::verif::yield_point();
         *head = head.overflowing_add(1).0;
     }
 
